@@ -50,6 +50,7 @@ type fcgiPeer struct {
 	params     map[string]string
 	stdin      []byte
 	stdinDone  bool
+	stream     bool // this connection's request has a streaming script (see respScript.streaming)
 	protoErr   string
 	out        [][]byte // records still to emit
 	closeAfter bool
@@ -76,7 +77,9 @@ type freq struct {
 }
 
 type respScript struct {
-	status     int  // 0 = no Status header
+	status    int  // 0 = no Status header
+	streaming bool // the responder answers while it reads: it echoes its stdin record by record, and like any process it
+	// reads no further input while its own output cannot be written (both directions have small buffers)
 	cgiRedir   bool // a CGI client-redirect response (RFC 3875 6.2.3): Location with an absolute URI, no Status, no body: a 302
 	reason     string
 	hdrs       [][2]string
@@ -94,6 +97,7 @@ type fcgiRig struct {
 	catchAll    bool // C19: a further rule "fastcgi / addr" without extension
 	limit       int  // body limit on /app (0 = none)
 	twoRules    bool
+	streamRun   bool // the responder's connections have small buffers both ways, and some scripts stream (echo while reading)
 	w           *World
 	c           *sim.Ctl
 	st          *sim.Stream
@@ -173,7 +177,21 @@ func decodePairs(b []byte) (map[string]string, error) {
 }
 
 // onData: the responder reads records exactly.
+const streamWindow = 16384 // bytes either side buffers for the other on a streaming responder's connection
+
+// outputBlocked: the streaming responder has output that the FastCGI client is not taking.
+func (p *fcgiPeer) outputBlocked() bool {
+	if !p.stream || len(p.out) == 0 {
+		return false
+	}
+	d, f := p.end.Peer().Pending()
+	return d+f >= streamWindow
+}
+
 func (p *fcgiPeer) onData() {
+	if p.outputBlocked() {
+		return // blocked in write(2): it does not get to its next read(2)
+	}
 	p.buf = append(p.buf, p.end.Take()...)
 	for p.protoErr == "" {
 		if len(p.buf) < 8 {
@@ -214,6 +232,13 @@ func (p *fcgiPeer) onData() {
 				if err != nil {
 					p.protoErr = "params: " + err.Error()
 				}
+				if rq := p.rig.reqOf(p.params); rq != nil && rq.script.streaming {
+					// answers at once: its header block goes out before it has read a byte of stdin
+					p.stream, p.req = true, rq
+					rq.peer = p
+					p.out = [][]byte{fcgiRecord(fcgiStdout, p.reqID, []byte(fmt.Sprintf("Status: 200 OK\r\nContent-Type: application/octet-stream\r\nX-Resp-Tok: tok%d\r\n\r\n", rq.id)), 0)}
+					p.rig.c.Probe("streaming-responder")
+				}
 			} else {
 				p.paramBytes = append(p.paramBytes, content...)
 			}
@@ -224,8 +249,14 @@ func (p *fcgiPeer) onData() {
 			}
 			if cl == 0 {
 				p.stdinDone = true
+				if p.stream {
+					p.out = append(p.out, fcgiRecord(fcgiStdout, p.reqID, nil, 0), fcgiRecord(fcgiEnd, p.reqID, make([]byte, 8), 0))
+				}
 			} else {
 				p.stdin = append(p.stdin, content...)
+				if p.stream {
+					p.out = append(p.out, fcgiRecord(fcgiStdout, p.reqID, append([]byte(nil), content...), 0)) // the echo
+				}
 			}
 		default:
 			p.protoErr = fmt.Sprintf("unexpected record type %d", typ)
@@ -234,9 +265,19 @@ func (p *fcgiPeer) onData() {
 	if p.protoErr != "" {
 		p.rig.c.Violate("C13/client-framing", p.protoErr, "the FastCGI client sent a malformed stream: %s", p.protoErr)
 	}
-	if p.stdinDone && p.out == nil && !p.emitted {
+	if p.stdinDone && p.out == nil && !p.emitted && !p.stream {
 		p.prepare()
 	}
+}
+
+// reqOf: which request the parameters belong to (REQUEST_URI carries the id in the query).
+func (r *fcgiRig) reqOf(params map[string]string) *freq {
+	for _, q := range r.reqs {
+		if strings.Contains(params["QUERY_STRING"], fmt.Sprintf("rid=%d&", q.id)) || strings.HasSuffix(params["QUERY_STRING"], fmt.Sprintf("rid=%d", q.id)) {
+			return q
+		}
+	}
+	return nil
 }
 
 // prepare turns the response script into records.
@@ -414,6 +455,8 @@ func runFcgi(mode string) sim.RigFunc {
 			c.Probe("case-sensitive-paths")
 		}
 		c.Params["case_sensitive_paths"] = httpserver.CaseSensitivePath
+		r.streamRun = mode == "C13" && st.Draw(6) == 0
+		c.Params["streaming_responder"] = r.streamRun
 		r.envs = [][2]string{{"APP_ENV", "prod"}, {"REQ_HOST", "{host}"}}
 		var b strings.Builder
 		fmt.Fprintf(&b, "http://f.test:0%s {\n\tbind 127.0.0.1\n\tsimnet v0\n\troot %s\n\terrors %s {\n\t\trotate_disable\n\t}\n", r.prefix, r.root, r.errLog)
@@ -462,6 +505,9 @@ func runFcgi(mode string) sim.RigFunc {
 			p := &fcgiPeer{rig: r, conn: conn, end: conn.Srv, t0: c.Now()}
 			conn.Srv.OnData = p.onData
 			conn.Srv.Opaque = true // the client writes its params in map order: sizes of its writes vary
+			if r.streamRun {
+				conn.Srv.SetWindow(streamWindow)
+			}
 			r.peers = append(r.peers, p)
 			return conn.Cli, nil
 		}
@@ -604,6 +650,9 @@ func (r *fcgiRig) addReq(i int) {
 	}
 	if q.method != "GET" && q.method != "HEAD" && (q.method != "OPTIONS" && q.method != "DELETE" || st.Draw(3) == 0) {
 		bl := []int{0, 1, 100, 65499, 65500, 65501, 131000}[st.Draw(7)]
+		if r.streamRun && st.Draw(3) == 0 {
+			bl = 250000 // (several records more than the two sides' buffers hold)
+		}
 		if r.limit > 0 && st.Draw(2) == 0 {
 			bl = []int{r.limit - 1, r.limit, r.limit + 1, r.limit + 70000}[st.Draw(4)]
 		}
@@ -670,6 +719,11 @@ func (r *fcgiRig) addReq(i int) {
 		sc.hostile = hostileKinds[st.Draw(len(hostileKinds))]
 		r.c.Fault("hostile-fcgi:" + sc.hostile)
 	}
+	if r.streamRun && (q.method == "POST" || q.method == "PUT") && !q.chunked && sc.hostile == "" && st.Draw(2) == 0 {
+		// an echo: the responder's whole output is determined by what it reads
+		r.c.Params[fmt.Sprintf("echo_body_%d", i)] = len(q.body)
+		*sc = respScript{streaming: true, status: 200, reason: "OK", hdrs: [][2]string{{"X-Resp-Tok", fmt.Sprintf("tok%d", i)}}, body: q.body}
+	}
 	q.script = sc
 	// the HTTP request bytes
 	var rb strings.Builder
@@ -724,6 +778,19 @@ func (r *fcgiRig) events(add func(sim.Event)) {
 	}
 	for i, p := range r.peers {
 		p := p
+		if p.stream {
+			if len(p.out) > 0 && !p.outputBlocked() {
+				add(sim.Event{Key: fmt.Sprintf("responder.emit/p%03d", i), Actor: fmt.Sprintf("responder:%d", i), Fire: func() {
+					p.end.Send(p.out[0])
+					p.out = p.out[1:]
+					if len(p.out) == 0 && p.stdinDone {
+						p.emitted = true
+					}
+					p.onData() // (back from write(2): on to the next read(2))
+				}})
+			}
+			continue
+		}
 		if p.out != nil && !p.emitted {
 			add(sim.Event{Key: fmt.Sprintf("responder.emit/p%03d", i), Actor: fmt.Sprintf("responder:%d", i), Fire: func() {
 				// emit one or several records
@@ -810,6 +877,12 @@ func (r *fcgiRig) judge() {
 			continue
 		}
 		resp := fin[0]
+		if q.script.streaming && q.peer != nil && c.Now()-q.peer.t0 >= r.readTimeout {
+			// nothing was slow here: the client was still writing the request body when the responder,
+			// unable to get rid of its output, stopped reading it; both waited until read_timeout
+			c.Violate("C13/status-differs", "streaming-responder/stalled-until-read_timeout", "request %d (%s %s, body %d bytes): a responder that answers while it reads (an echo) got stuck with the FastCGI client until read_timeout (the client got status %d and %d body bytes after %s): the FastCGI client writes the whole body before it reads the first record of the response, the responder cannot write, stops reading, and both wait for each other", q.id, q.method, q.path, len(q.body), resp.Status, len(resp.Body), c.Now()-q.peer.t0)
+			continue
+		}
 		if r.limit > 0 && len(q.body) > r.limit {
 			// C17 through FastCGI: the body is cut off at the limit with a too-large error; the
 			// responder must not be run on the truncated upload as if it were the whole one
